@@ -161,10 +161,11 @@ type inode struct {
 type FaultKind int
 
 const (
-	FaultNone  FaultKind = iota
-	FaultClean           // no effect, error returned
-	FaultAfter           // full effect applied, error returned
-	FaultShort           // writes: a prefix (half, 8-byte aligned) applied, error returned; others: like clean
+	FaultNone     FaultKind = iota
+	FaultClean              // no effect, error returned
+	FaultAfter              // full effect applied, error returned
+	FaultShort              // writes: a prefix (half, 8-byte aligned) applied, error returned; others: like clean
+	FaultShortEOF           // writes: like FaultShort but the error is a bare io.EOF (what io.WriterAt allows for a file that cannot grow); others: like clean
 )
 
 var ErrInjected = errors.New("simdisk: injected I/O error")
@@ -190,6 +191,7 @@ type Disk struct {
 	FaultAt         int
 	FaultKind       FaultKind
 	FaultPersistent bool
+	FaultAll        bool // once the fault has fired, every later faultable op of any kind fails too (the device is gone) until the harness clears FaultAt
 	FaultHit        *Op
 	faultKindHit    OpKind
 	FaultOps        int  // faultable ops seen so far
@@ -245,6 +247,9 @@ func (d *Disk) fault(k OpKind) FaultKind {
 	if d.FaultPersistent && idx > d.FaultAt && k == d.faultKindHit {
 		return d.FaultKind
 	}
+	if d.FaultAll && idx > d.FaultAt {
+		return d.FaultKind
+	}
 	return FaultNone
 }
 
@@ -276,7 +281,7 @@ func (d *Disk) OpenFile(name string, create, excl, ro, trunc bool) (*Handle, err
 			return nil, pathErr("open", name, fs.ErrNotExist)
 		}
 		switch d.fault(OpCreate) {
-		case FaultClean, FaultShort:
+		case FaultClean, FaultShort, FaultShortEOF:
 			return nil, pathErr("open", name, ErrInjected)
 		case FaultAfter:
 			ino = &inode{id: len(d.inodes), nlink: 1}
@@ -378,6 +383,12 @@ func (h *Handle) WriteAt(p []byte, off int64) (int, error) {
 			apply(p[:n])
 		}
 		return n, pathErr("write", h.Name, ErrInjected)
+	case FaultShortEOF:
+		n := (len(p) / 2) &^ 7
+		if n > 0 {
+			apply(p[:n])
+		}
+		return n, io.EOF
 	}
 	apply(p)
 	return len(p), nil
@@ -404,7 +415,7 @@ func (h *Handle) Truncate(size int64, prealloc bool) error {
 		d.logOp(Op{Kind: kind, Ino: h.ino.id, Size: size})
 	}
 	switch d.fault(kind) {
-	case FaultClean, FaultShort:
+	case FaultClean, FaultShort, FaultShortEOF:
 		return pathErr("truncate", h.Name, ErrInjected)
 	case FaultAfter:
 		do()
@@ -428,7 +439,7 @@ func (h *Handle) Sync() error {
 		op.Ino = h.ino.id
 	}
 	switch d.fault(op.Kind) {
-	case FaultClean, FaultShort:
+	case FaultClean, FaultShort, FaultShortEOF:
 		return pathErr("sync", h.Name, ErrInjected)
 	case FaultAfter:
 		d.logOp(op)
@@ -462,7 +473,7 @@ func (d *Disk) Remove(name string) error {
 		d.logOp(Op{Kind: OpUnlink, Name: name, Ino: ino.id})
 	}
 	switch d.fault(OpUnlink) {
-	case FaultClean, FaultShort:
+	case FaultClean, FaultShort, FaultShortEOF:
 		return pathErr("remove", name, ErrInjected)
 	case FaultAfter:
 		do()
@@ -480,7 +491,7 @@ func (d *Disk) Rename(a, b string) error {
 		return pathErr("rename", a, fs.ErrNotExist)
 	}
 	switch d.fault(OpRename) {
-	case FaultClean, FaultShort:
+	case FaultClean, FaultShort, FaultShortEOF:
 		return pathErr("rename", a, ErrInjected)
 	}
 	delete(d.names, a)
@@ -544,7 +555,7 @@ func (d *Disk) MetaCommit(b []byte) error {
 		d.logOp(Op{Kind: OpMetaCommit, Data: d.meta})
 	}
 	switch d.fault(OpMetaCommit) {
-	case FaultClean, FaultShort:
+	case FaultClean, FaultShort, FaultShortEOF:
 		return ErrInjected
 	case FaultAfter:
 		do()
@@ -578,7 +589,7 @@ func (d *Disk) StableSet(k string, v []byte) error {
 		}
 	}
 	switch d.fault(OpStableSet) {
-	case FaultClean, FaultShort:
+	case FaultClean, FaultShort, FaultShortEOF:
 		return ErrInjected
 	case FaultAfter:
 		do()
